@@ -298,6 +298,10 @@ def run_c05(rep, tier, seed):
         rep.mismatch({"module": "HistMachine", "field": "histogram2d-raises"}, f"histogram2d on {nbig} float32 points raised {type(e).__name__}: {e}", case={"n": nbig}, module="hist")
     del x32, y32
     rep.part("replay", scenarios=len(scs), thread_counts=threads, stress_points=npt, float32_points_in_one_bin=nbig - 1000)
+    # several value layers in one call: one Array under two operations, and two different Arrays carrying the same (or no) name -
+    # every layer is the per-bin sum / mean of its OWN values (shared with the C19 check)
+    from . import layers as _layers
+    _layers.run_same_array_layers(rep, tier, rng)
     rep.cov["rule"] = ("the schedule model is instantiated with the loop/update/rounding structure read from the kernel source and explored exhaustively (all partitions of 4 points over the workers, all interleavings); "
                        "TLC's exact binning tables (8 point sets x 3 y-patterns x 8 limit pairs x 3 resolutions) are replayed on the compiled kernel under each thread count and on histogram2d; automatic limits / log axes / "
                        "non-finite entries are checked against the grid the call reports; a stress run checks exact conservation; distinct = (part, scenario id, resolution, threads)")
